@@ -15,7 +15,9 @@ import (
 	rt "github.com/teleport-network/teleport/zzverifrt"
 )
 
-func VerifC13AggregateGenesis() {
+func VerifC13AggregateGenesis() { c13AggregateGenesis() }
+
+func c13AggregateGenesis() {
 	rt.Override("(github.com/cosmos/cosmos-sdk/x/auth/keeper.AccountKeeper).GetModuleAccount", func(_ authkeeper.AccountKeeper, _ sdk.Context, name string) authtypes.ModuleAccountI {
 		return &authtypes.ModuleAccount{Name: name} // the module account exists (it is created by the auth genesis)
 	})
